@@ -4,6 +4,7 @@ CONSTANTS
   Pool <- PoolB
   MaxLevel = 2
   MaxLearnt = 2
+  CheckPool <- NoChecks
   LoseWatchBug = FALSE
 CONSTRAINT Bounded
 INVARIANT WatchInv
